@@ -518,6 +518,7 @@ func c17Extras4(c *Ctx) {
 // time.Time (UTCTime) and the six alternative string tags as PrintableString.
 func c18Extras4(c *Ctx) {
 	w := c.W
+	bigIntSignBitRule(c)
 	fn := w.Fn("z/encoding/asn1.parseSequenceOf")
 	if fn == nil {
 		c.Undecided("R-TABLE", "encoding/asn1.parseSequenceOf", "anchor", "-", "not found")
@@ -1060,4 +1061,102 @@ func c30Extras4(c *Ctx) {
 		c.Cut(CutSpec{Rule: "R-PRE", Fn: fn, Label: "accepts only after storing the lifetime hint", Target: TrueReturn(0, nil), MinTargets: -1,
 			Barrier: func(in ssa.Instruction) bool { return storeToLeaf(in, "newSessionTicketMsg.lifetimeHint") }, Cut: func(Fact) bool { return false }})
 	}
+}
+
+// bigIntSignBitRule: makeBigInt hands out the bare magnitude octets (a bytesEncoder on its own, without a 0xff / 0x00
+// pad in front) only where the top bit of the first octet already carries the sign: set for a negative number, clear
+// for a positive one. The width of the two's-complement form hangs on exactly this test.
+func bigIntSignBitRule(c *Ctx) {
+	w := c.W
+	fn := w.Fn("z/encoding/asn1.makeBigInt")
+	if fn == nil {
+		c.Undecided("R-VSET", "encoding/asn1.makeBigInt", "anchor", "-", "not found")
+		return
+	}
+	topBit := func(x ssa.Value, op string) FP {
+		return func(f Fact) bool {
+			if f.Op != op || f.Y == nil {
+				return false
+			}
+			if k, ok := intConst(f.Y); !ok || k != 0 {
+				return false
+			}
+			bo, ok := stripConv(f.X).(*ssa.BinOp)
+			if !ok || bo.Op != token.AND {
+				return false
+			}
+			el, mask := bo.X, bo.Y
+			if _, isC := el.(*ssa.Const); isC {
+				el, mask = mask, el
+			}
+			if k, ok := intConst(mask); !ok || k != 0x80 {
+				return false
+			}
+			ld, ok := stripConv(el).(*ssa.UnOp)
+			if !ok || ld.Op != token.MUL {
+				return false
+			}
+			ia, ok := ld.X.(*ssa.IndexAddr)
+			if !ok {
+				return false
+			}
+			if k, ok := intConst(ia.Index); !ok || k != 0 {
+				return false
+			}
+			return sameVal(ia.X, x)
+		}
+	}
+	n := 0
+	for _, b := range fn.Blocks {
+		rt, ok := b.Instrs[len(b.Instrs)-1].(*ssa.Return)
+		if !ok || len(rt.Results) == 0 {
+			continue
+		}
+		mi, ok := unspill(rt, 0).(*ssa.MakeInterface)
+		if !ok {
+			continue
+		}
+		nt, ok := mi.X.Type().(*types.Named)
+		if !ok || nt.Obj().Name() != "bytesEncoder" {
+			continue
+		}
+		x := stripConv(mi.X)
+		sign := ""
+		for _, f := range domFacts(b) {
+			if f.Y == nil || !strings.HasSuffix(Expr(f.X), ".Sign(n)") {
+				continue
+			}
+			if k, ok := intConst(f.Y); !ok || k != 0 {
+				continue
+			}
+			switch f.Op {
+			case "lt":
+				sign = "negative"
+			case "gt":
+				sign = "positive"
+			case "ge":
+				if sign == "" {
+					sign = "positive" // the zero case returns the single 00 octet before this point or encodes the same way
+				}
+			}
+		}
+		n++
+		c.Sites++
+		switch sign {
+		case "negative":
+			c.Cut(CutSpec{Rule: "R-VSET", Fn: fn, Label: "a negative number is encoded without the 0xff pad only if the top bit of its first octet is set", Target: isInstr(rt), Cut: topBit(x, "ne")})
+		case "positive":
+			emptyOK := func(f Fact) bool {
+				if f.Y == nil || f.Op != "eq" && f.Op != "le" {
+					return false
+				}
+				k, ok := intConst(f.Y)
+				return ok && k == 0 && LenOf(func(v ssa.Value) bool { return sameVal(v, x) })(f.X)
+			}
+			c.Cut(CutSpec{Rule: "R-VSET", Fn: fn, Label: "a positive number is encoded without the 0x00 pad only if the top bit of its first octet is clear", Target: isInstr(rt), Cut: AnyF(topBit(x, "eq"), emptyOK)})
+		default:
+			c.Fail("R-VSET", "encoding/asn1.makeBigInt", "bare octets returned on a path of known sign", w.InstrPos(rt), "unrecognised idiom: the sign of n is not decided by a dominating branch here")
+		}
+	}
+	c.Check(n >= 2, "R-VSET", "encoding/asn1.makeBigInt", "bare-octet returns found (negative and positive)", w.Pos(fn.Pos()), fmt.Sprint(n))
 }
